@@ -63,6 +63,12 @@ def recursive_tag_functions(facts):
         if not fn.hir or not any('tag::Tag' in t and 'TagId' not in t for t in fn.d.get('sig_inputs', [])):
             continue
         selfcalls = [e for e, _ in hir_walk(fn.hir['body']) if e['k'] == 'call' and callee_id(e) == fn.id]
+        if not selfcalls and fn.qname in facts.known_fns_or_aliases():
+            # recursion through private helpers of the module that did not exist in the pinned tree
+            # (`unify` -> `unify_structures` -> `unify_functions` -> `unify`)
+            for g in facts.family(fn):
+                if g.id != fn.id and g.hir and any(e['k'] == 'call' and callee_id(e) == fn.id for e, _ in hir_walk(g.hir['body'])):
+                    selfcalls = [True]
         if selfcalls:
             out.append(fn)
     return out
@@ -124,6 +130,11 @@ def field_root(ctx, e, stop, depth=0, last=None):
         if hid in stop:
             return (hid, last)
         src = ctx.bind.get(hid)
+        if src and src[0] == 'let' and len(src) > 2 and src[2]['k'] == 'tuple' and src[1] is not None and src[1]['k'] == 'tup':
+            # `let (a, b) = (&x.f, &y.g);`: the component at the position of the binding
+            for i, sub in enumerate(src[2]['subs']):
+                if any(h2 == hid for h2, _ in pattern_bindings(sub)) and i < len(src[1]['es']):
+                    return field_root(ctx, src[1]['es'][i], stop, depth + 1, last)
         if src and src[0] in ('arm', 'let'):
             return field_root(ctx, src[1], stop, depth + 1, last)
         if src and src[0] == 'cparam':
@@ -147,7 +158,12 @@ def tag_rec(c, facts, R, prefix_desc=''):
         target = facts.fn(need)     # alias-aware: a renamed function with the same signature is accepted
         if target is None or not any(fn.id == target.id for fn in fns):
             c.bad(R, 'anchor-missing:recursive-' + need.split('::')[-1], 'no self-recursive function `%s` over Tag found in oal_compiler::inference' % need.split('::')[-1])
-    for fn in fns:
+    for fn0 in fns:
+      units = [fn0] + [g for g in facts.family(fn0) if g.id != fn0.id and g.hir and g.kind != 'Closure' and g.qname not in facts.known_fns_or_aliases()
+                       and any(e['k'] == 'call' and callee_id(e) == fn0.id for e, _ in hir_walk(g.hir['body']))]
+      covered = {}
+      only_guarded = {}
+      for fn in units:
         ctx = FnCtx(fn)
         # map binding hid -> (variant, field)
         bound = {}
@@ -166,10 +182,8 @@ def tag_rec(c, facts, R, prefix_desc=''):
                         bound[hid] = (path[0][0], path[-1][1])
                         if g:
                             guarded.add(hid)
-        covered = {}
-        only_guarded = {}
         for e, anc in hir_walk(fn.hir['body']):
-            if e['k'] == 'call' and callee_id(e) == fn.id:
+            if e['k'] == 'call' and callee_id(e) == fn0.id:
                 for a in e['args']:
                     r = local_root(ctx, a, stop=set(bound))
                     if r in bound:
@@ -185,7 +199,7 @@ def tag_rec(c, facts, R, prefix_desc=''):
         # the fields the helper hands back to this function are recursed on
         mod = fn.qname.rsplit('::', 1)[0]
         for e, anc in hir_walk(fn.hir['body']):
-            if e['k'] != 'call' or callee_id(e) in (None, fn.id):
+            if e['k'] != 'call' or callee_id(e) in (None, fn.id, fn0.id):
                 continue
             h = facts.fns.get(callee_id(e))
             if h is None or not h.hir or not h.qname.startswith(mod + '::') or '{closure' in h.qname:
@@ -198,39 +212,39 @@ def tag_rec(c, facts, R, prefix_desc=''):
                 phids = {hid for hid, _ in pattern_bindings(h.hir['params'][i])}
                 hctx = FnCtx(h)
                 for e2, _ in hir_walk(h.hir['body']):
-                    if e2['k'] == 'call' and callee_id(e2) == fn.id:
+                    if e2['k'] == 'call' and callee_id(e2) == fn0.id:
                         for a2 in e2['args']:
                             fr = field_root(hctx, a2, phids)
                             if fr and fr[1]:
                                 covered.setdefault(v, set()).add(fr[1])
-        short = fn.qname.split('::')[-1]
-        for orig in ('occurs', 'unify', 'reduce'):
-            t0 = facts.fn({'occurs': 'oal_compiler::inference::unify::occurs', 'unify': 'oal_compiler::inference::unify::unify', 'reduce': 'oal_compiler::inference::union::reduce'}[orig])
-            if t0 is not None and t0.id == fn.id:
-                short = orig
-        for v, fields in sorted(nested.items()):
-            got = covered.get(v, set())
-            want = set(fields)
-            # tuple-variant payloads are named by index
-            if len(fields) == 1 and fields[0].isdigit():
-                want = {fields[0]}
-            missing = want - got
-            inst = {'fn': fn.qname, 'variant': v, 'nested_fields': sorted(want), 'recursed_on': sorted(got)}
-            cond = sorted(f for f in want if only_guarded.get((v, f)) and all(only_guarded[(v, f)]))
-            if not missing and cond:
-                c.bad(R, '%s:variant=%s:recursion-under-a-guard=%s' % (short, v, ','.join(cond)),
-                      '%s recurses into Tag::%s (%s) only in a match arm with a guard: the values of the variant that fail the guard take another arm and are not descended into' % (fn.qname, v, ','.join(cond)), **inst)
-            elif not missing:
-                c.ok(R, inst)
-                c.sample(inst)
-            else:
-                c.bad(R, '%s:variant=%s:missing=%s' % (short, v, ','.join(sorted(missing))),
-                      '%s does not recurse into Tag::%s (%s) although the type nests a tag there: %s (%s)'
-                      % (fn.qname, v, ','.join(sorted(missing)),
-                         {'occurs': 'an infinite type can be bound and reduce() diverges',
-                          'unify': 'nested tags are never unified (spurious mismatch or missed equation)',
-                          'reduce': 'nested variables are never substituted'}.get(short, 'nested tags are ignored'),
-                         fn.loc()), **inst)
+      short = fn0.qname.split('::')[-1]
+      for orig in ('occurs', 'unify', 'reduce'):
+          t0 = facts.fn({'occurs': 'oal_compiler::inference::unify::occurs', 'unify': 'oal_compiler::inference::unify::unify', 'reduce': 'oal_compiler::inference::union::reduce'}[orig])
+          if t0 is not None and t0.id == fn0.id:
+              short = orig
+      for v, fields in sorted(nested.items()):
+          got = covered.get(v, set())
+          want = set(fields)
+          # tuple-variant payloads are named by index
+          if len(fields) == 1 and fields[0].isdigit():
+              want = {fields[0]}
+          missing = want - got
+          inst = {'fn': fn0.qname, 'variant': v, 'nested_fields': sorted(want), 'recursed_on': sorted(got)}
+          cond = sorted(f for f in want if only_guarded.get((v, f)) and all(only_guarded[(v, f)]))
+          if not missing and cond:
+              c.bad(R, '%s:variant=%s:recursion-under-a-guard=%s' % (short, v, ','.join(cond)),
+                    '%s recurses into Tag::%s (%s) only in a match arm with a guard: the values of the variant that fail the guard take another arm and are not descended into' % (fn0.qname, v, ','.join(cond)), **inst)
+          elif not missing:
+              c.ok(R, inst)
+              c.sample(inst)
+          else:
+              c.bad(R, '%s:variant=%s:missing=%s' % (short, v, ','.join(sorted(missing))),
+                    '%s does not recurse into Tag::%s (%s) although the type nests a tag there: %s (%s)'
+                    % (fn0.qname, v, ','.join(sorted(missing)),
+                       {'occurs': 'an infinite type can be bound and reduce() diverges',
+                        'unify': 'nested tags are never unified (spurious mismatch or missed equation)',
+                        'reduce': 'nested variables are never substituted'}.get(short, 'nested tags are ignored'),
+                       fn0.loc()), **inst)
 
 
 def unify_helpers(facts, fn):
@@ -436,9 +450,9 @@ def zip_on_equal_length_edge_mir(fn, line):
 
 def arity(c, facts, R):
     """the zip over function bindings lies on the equal-length edge of a len() comparison"""
-    fn = c.anchor(R, 'oal_compiler::inference::unify::unify')
+    fn0 = c.anchor(R, 'oal_compiler::inference::unify::unify')
     zips = 0
-    for e, anc in hir_walk(fn.hir['body']):
+    for fn, e, anc in [(g, e, anc) for g in facts.family(fn0) if g.hir and g.kind != 'Closure' for e, anc in hir_walk(g.hir['body'])]:
         if e['k'] == 'mcall' and e['name'] == 'zip' and 'Tag' in e['ty']:
             zips += 1
             ok = False
